@@ -181,6 +181,37 @@ def run(c):
     mid = cells[len(cells) // 2]
     c.sample({"cell": cell_name(mid["case"]), "decide": mid["decide"], "may_dispatch": mid["may"]})
 
+    # ---- 2b. the real TunnelGateway loop over loopback UDP with a real WireGuard client (shared with C09) ----
+    tbin = c.cargo_build("vh-snap", bin="snaptunnel")
+    gout = os.path.join(c.work, "gateway.json")
+    rc, so = c.sh([tbin, "gateway", gout], timeout=600)
+    if rc != 0:
+        c.drift("gateway loop run failed rc=%s %s" % (rc, (so or "")[-300:]))
+    else:
+        g = json.load(open(gout))
+        steps = {x["step"]: x for x in g["log"]}
+        c.cov["gateway_loop"] = [x for x in g["log"] if x["step"].startswith("authorised")]
+        ontime = g["authorised_phase_done_at_s"] <= g["life"] - 5
+        for name, code in (("authorised:spoofed-source", 33), ("authorised:onehop-path", 20), ("authorised:garbage", 16)):
+            x = steps.get(name)
+            if not x:
+                continue
+            if x["dispatched"]:
+                c.violation("gateway:dispatched:%s" % name.split(":")[1], "real gateway loop dispatched the %s datagram" % name.split(":")[1], g)
+            if len(x["replies"]) > 1:
+                c.violation("reply:more-than-one", "real gateway loop answered the %s datagram %d times" % (name, len(x["replies"])), g)
+            for rpl in x["replies"]:
+                if rpl.get("scmp_type") != 4 or rpl.get("len", 0) > 9216:
+                    c.violation("reply:not-scmp-parameter-problem", "real gateway loop answered %s with %s" % (name, json.dumps(rpl)), g)
+                elif rpl.get("scmp_code") != code:
+                    c.drift("gateway loop: %s answered with code %s (spec %s)" % (name, rpl.get("scmp_code"), code))
+            if ontime and len(x["replies"]) != 1:
+                c.drift("gateway loop: %s got %d replies" % (name, len(x["replies"])))
+        x = steps.get("authorised:good")
+        if ontime and (not x or x["dispatched"] != 1 or x["replies"]):
+            c.drift("gateway loop: the well-formed datagram was not dispatched exactly once without reply: %s" % json.dumps(x))
+        c.cov["evaluations"] += 4
+
     # ---- 3. record random datagrams -> Trace_SnapIngress ------------------------------------------
     n = 400000 if thorough else 30000
     ev = os.path.join(c.work, "trace.ndjson")
